@@ -15,3 +15,10 @@ Definition all_results (p : project) : list (option (nat * nat)) :=
   let st := schedule p in map (fun t => dates p st t) (seq 0 (length (p_tasks p))).
 
 Definition all_bookings (p : project) : list booking := bookings (schedule p).
+
+(* a resource on the project clock whose calendar is computed inside the model: weekly hours table (or the
+   default calendar) minus leave / vacation / holiday intervals, evaluated at every slot start *)
+Require Import SP.Model.Calendar.
+Definition mk_resource_cal (tbl : option (list (Z * list ((Z * Z) * (Z * Z))))) (off : list (Z * Z))
+           (start g : Z) (upper : nat) (lims : list nat) : resource :=
+  mk_resource (work_table tbl off start g upper) lims.          (* the table is an argument: computed once *)
